@@ -103,7 +103,7 @@ Proof.
   - exists p. apply pres_peering_manual_start; auto.
   - exists p. unfold api_send_update. destruct ok; auto. apply PT_with_proto; auto.
     intros w' H'. apply PT_upd_conn, PT_conn_write; auto.
-  - exists p. unfold api_send_bin. apply PT_with_proto; auto. intros w' H'. apply PT_conn_write; auto.
+  - exists p. unfold api_send_bin. apply PT_with_proto; auto. intros w' H'. apply PT_upd_conn, PT_conn_write; auto.
 Qed.
 
 Lemma Pre_event e w : Pre w -> enabled w e = true -> Inv (do_event D e w).
